@@ -440,6 +440,12 @@ def main(argv):
     if prop not in PROPS:
         print("unknown property", prop)
         return 2
+    if tier == "thorough":
+        # the thorough tier also replays the self-test corpora (hundreds of scratch extractions): a longer leash, same principle
+        try:
+            signal.alarm(3 * 3600)
+        except Exception:
+            pass
     seed = int(os.environ.get("VERIF_SEED", "0") or 0)
     fn, need_ws, expl = PROPS[prop]
     t0 = time.time()
